@@ -1,6 +1,6 @@
 //verif:pkg .
 //verif:use servers_mcp
-//verif:bound sequential (one-step inductive): a tool / prompt / resource registry holding 0..2 entries with symbolic names (printable ASCII <= 4) plus one operation {register new or existing name, unregister, list, call/get/read of a present or absent name}; concurrent: register || {list, call, get, read} on each registry and register/unregister || list on notification-handler tables with 2 goroutines under the engine's happens-before race detector, each reported pair confirmed with go test -race; a call racing the unregistration of its tool, a prompts/get racing a re-registration; two concurrent registrations of the same new name (tools, prompts, resources) and unregister vs register of one tool under every schedule with <= 2 (thorough 3) preemptions at synchronisation operations, violations confirmed natively by holding the preempted goroutine at the recorded operation
+//verif:bound sequential (one-step inductive): a tool / prompt / resource registry holding 0..2 entries with symbolic names (printable ASCII <= 4) plus one operation {register new or existing name (resources: through RegisterResource or RegisterResources), unregister, list, call/get/read of a present or absent name}; concurrent: register || {list, call, get, read} on each registry and register/unregister || list on notification-handler tables with 2 goroutines under the engine's happens-before race detector, each reported pair confirmed with go test -race; a call racing the unregistration of its tool, a prompts/get racing a re-registration; two concurrent registrations of the same new name (tools, prompts, resources) and unregister vs register of one tool under every schedule with <= 2 (thorough 3) preemptions at synchronisation operations, violations confirmed natively by holding the preempted goroutine at the recorded operation
 //verif:assume linearizability with more than two goroutines is outside the claim
 package mcp
 
@@ -117,9 +117,16 @@ func H_C12_resources_step() {
 			order = append(order, uri)
 		}
 		model[uri] = true
-		rm.registerResource(&Resource{URI: uri, Name: "r"}, func(ctx context.Context, r *ReadResourceRequest) (ResourceContents, error) {
-			return TextResourceContents{URI: uri, Text: "t"}, nil
-		})
+		// through either registration entry point: the single-content one or the multi-content one
+		if vBool("viaRegisterResources") {
+			rm.registerResources(&Resource{URI: uri, Name: "r"}, func(ctx context.Context, r *ReadResourceRequest) ([]ResourceContents, error) {
+				return []ResourceContents{TextResourceContents{URI: uri, Text: "t"}}, nil
+			})
+		} else {
+			rm.registerResource(&Resource{URI: uri, Name: "r"}, func(ctx context.Context, r *ReadResourceRequest) (ResourceContents, error) {
+				return TextResourceContents{URI: uri, Text: "t"}, nil
+			})
+		}
 	}
 	arg := vString("arg", 4)
 	if vBool("registerMore") {
@@ -129,9 +136,15 @@ func H_C12_resources_step() {
 			}
 			model[arg] = true
 		}
-		rm.registerResource(&Resource{URI: arg, Name: "r2"}, func(ctx context.Context, r *ReadResourceRequest) (ResourceContents, error) {
-			return TextResourceContents{URI: arg, Text: "new"}, nil
-		})
+		if vBool("viaRegisterResources") {
+			rm.registerResources(&Resource{URI: arg, Name: "r2"}, func(ctx context.Context, r *ReadResourceRequest) ([]ResourceContents, error) {
+				return []ResourceContents{TextResourceContents{URI: arg, Text: "new"}}, nil
+			})
+		} else {
+			rm.registerResource(&Resource{URI: arg, Name: "r2"}, func(ctx context.Context, r *ReadResourceRequest) (ResourceContents, error) {
+				return TextResourceContents{URI: arg, Text: "new"}, nil
+			})
+		}
 	}
 	out, _ := rm.handleListResources(context.Background(), &JSONRPCRequest{})
 	lr, ok := out.(ListResourcesResult)
